@@ -203,20 +203,21 @@ theorem trigger_lift (L : Lift R A HR h) (m : Machine) (t : Trigger)
     (okI : t.event = initialEv → ∀ s, initialTarget m = .ok s →
       (∀ cb ∈ (stateDef m s).enter, EntryOk A HR { t := t, src := none, tgt := s } .enter cb) ∧
       Resp R (setState t (stateVal m s)))
-    (ok : t.event ≠ initialEv → ∀ s, ∀ tr ∈ out m s, matchesEv tr t.event = true →
+    (ok : ∀ s, ∀ tr ∈ out m s, matchesEv tr t.event = true →
       (∀ ph, ∀ cb ∈ groupCbs m t.event tr ph, EntryOk A HR (actCtx t tr) ph cb) ∧
       Resp R (setState t (stateVal m tr.target))) :
     Resp R (trigger h m t) := by
   unfold trigger
+  refine L.bind L.get fun cfg => ?_
   split
   · rename_i he
-    exact L.bind (activateInitial_lift L m t (okI (by simpa using he))) fun _ => L.pure _
-  · rename_i he
-    refine L.bind L.get fun cfg => ?_
-    split
+    have he' : t.event = initialEv := by
+      simp only [Bool.and_eq_true, beq_iff_eq] at he; exact he.1
+    exact L.bind (activateInitial_lift L m t (okI he')) fun _ => L.pure _
+  · split
     · exact L.throw _
     · rename_i s _
-      refine L.bind (tryCands_lift L m t _ (ok (by simpa using he) s)) fun r => ?_
+      refine L.bind (tryCands_lift L m t _ (ok s)) fun r => ?_
       split
       · exact L.pure _
       · split
